@@ -21,6 +21,9 @@ func (e *errInvalidChunkCrc) Error() string {
 	return fmt.Sprintf("invalid chunk CRC: %x != %x", e.actual, e.expected)
 }
 
+// maxCompressionNameLen bounds the length of the compression field of a chunk record.
+const maxCompressionNameLen = 1 << 16
+
 type magicLocation int
 
 const (
@@ -369,7 +372,15 @@ func loadChunk(l *Lexer, recordLen uint64) error {
 		return fmt.Errorf("failed to read compression length: %w", err)
 	}
 
-	// read compression and records length into buffer
+	// read compression and records length into buffer. The compression name is
+	// normally a few bytes; a longer one needs a bigger scratch buffer, and a
+	// length that cannot be a name is rejected before it is used as a slice bound.
+	if compressionLen > maxCompressionNameLen {
+		return fmt.Errorf("chunk compression name of %d bytes exceeds the maximum of %d", compressionLen, maxCompressionNameLen)
+	}
+	if int(compressionLen)+8 > len(l.buf) {
+		l.buf = make([]byte, int(compressionLen)+8)
+	}
 	thisReadLength, err := io.ReadFull(l.reader, l.buf[:compressionLen+8])
 	readLength += thisReadLength
 	if errors.Is(err, io.ErrUnexpectedEOF) || errors.Is(err, io.EOF) {
